@@ -215,6 +215,8 @@ def abstract(path):
                 out.append(("timer-is-restart?", (e[2] != neg)))
             else:
                 out.append(("cond", d, e[2]))
+        elif k == "iflet" and len(e) > 5:
+            pass        # the if-let reading of a two-armed match: the arm event that follows carries the same information
         elif k == "iflet":
             d, vs, truth = e[1], e[2], e[3]
             if d == "^command_state" and "Running" in vs:
